@@ -6253,7 +6253,11 @@ impl<'a, 'graph> Builder<'a, 'graph> {
                 }
                 .into_box(),
               )
-            } else if redirect_count >= loader.max_redirects() {
+            } else if redirect_count >= loader.max_redirects()
+              || specifier == load_specifier
+            {
+              // a redirect to the very specifier that was requested can never
+              // make progress
               Err(
                 ModuleErrorKind::Load {
                   specifier: load_specifier.clone(),
